@@ -18,7 +18,6 @@ from common import Group, main, outcome  # noqa: E402
 from specs import ref_des as rd  # noqa: E402
 from specs import ref_md4 as rm4  # noqa: E402
 from specs import ref_oscrypt as oscrypt  # noqa: E402
-from specs import ref_pbkdf2 as rp  # noqa: E402
 from specs import ref_saslprep as rsp  # noqa: E402
 from specs import ref_scrypt as rs  # noqa: E402
 
